@@ -23,11 +23,13 @@ Targets == {"self", "ancestor", "missing"}
 
 \* the catalogue: fault kinds applicable to a format
 Kinds(f) == {"truncate", "unbalance"}
-            \cup (IF IsPdf(f) THEN {"number", "retarget", "dropobj", "dupobj", "corruptstream"} ELSE {})
+            \* "number" rewrites the digits in the finished file (what follows moves when the spelling is longer);
+            \* "field" replaces the value before the file is laid out, so only that field is wrong
+            \cup (IF IsPdf(f) THEN {"number", "field", "retarget", "dropobj", "dupobj", "corruptstream"} ELSE {})
             \cup (IF HasInStream(f) THEN {"instream"} ELSE {})
             \cup (IF IsZip(f) THEN {"number", "dropmember", "dupmember", "corruptstream"} ELSE {})
             \cup (IF f = "html" THEN {"number"} ELSE {})
-Param(k) == CASE k \in {"number", "instream"} -> Numbers [] k = "retarget" -> Targets [] OTHER -> {"-"}
+Param(k) == CASE k \in {"number", "field", "instream"} -> Numbers [] k = "retarget" -> Targets [] OTHER -> {"-"}
 FaultSpace(f) == UNION {{[kind |-> k, site |-> s, param |-> p] : s \in 0..(K - 1), p \in Param(k)} : k \in Kinds(f)}
 
 VARIABLES fmt, faults, calls
